@@ -1188,3 +1188,149 @@ pub fn run_server(cfg: &ScenCfg, out: &mut RunOut) {
     out.nontrivial = Some(wl);
     out.sample = Some(json!({"scenario": "C ABI server: write results, database, address filter", "variant": cfg.variant, "filter": format!("{:?}", spec), "units": units.iter().map(|u| u.0).collect::<Vec<_>>()}));
 }
+
+// ---------------------------------------------------------------------------
+// C18: the serial client through the C ABI (port states, serial settings, retry strategy)
+
+pub fn run_client_rtu(_cfg: &ScenCfg, out: &mut RunOut) {
+    use crate::model::frame::rtu_frame;
+    use simtokio::serial;
+    const PATH: &str = "/dev/ttyFFI0";
+    kernel::with(|w| {
+        w.cfg.sched_random = false;
+        w.cfg.select_random = false;
+    });
+    let dec_idx = choose(36) as u8;
+    let mut rt = FfiRuntime::new();
+    serial::add_line(PATH, serial::OpenOutcome::Ok, true);
+    let states: Arc<Mutex<StateLog>> = Arc::new(Mutex::new(StateLog::default()));
+    let listener = ffi::PortStateListener {
+        on_change: Some(st_change),
+        on_destroy: Some(st_destroy),
+        ctx: Arc::into_raw(states.clone()) as *mut c_void,
+    };
+    let baud = [1200u32, 9600, 19200, 115200][choose(4) as usize];
+    let retry_ms = [20u64, 100, 1000][choose(3) as usize];
+    let retry_max = retry_ms * [1u64, 4][choose(2) as usize];
+    let settings = ffi::SerialPortSettings {
+        baud_rate: baud,
+        data_bits: 3,
+        flow_control: 0,
+        parity: choose(3) as c_int,
+        stop_bits: choose(2) as c_int,
+    };
+    let path = CString::new(PATH).unwrap();
+    let mut ch: *mut rodbus_ffi::ClientChannel = std::ptr::null_mut();
+    // the port is missing for the first attempts: the retry strategy is what was configured
+    let fails = choose(3) as usize;
+    for _ in 0..fails {
+        serial::plan_open(PATH, serial::OpenOutcome::NoDevice);
+    }
+    let rc = unsafe {
+        ffi::rodbus_client_channel_create_rtu(rt.ptr, path.as_ptr(), settings, 4, ffi::RetryStrategy { min_delay: retry_ms, max_delay: retry_max }, ffi_decode(dec_idx), listener, &mut ch)
+    };
+    if rc != 0 {
+        out.violate("C18", "channel_create", format!("create_rtu returned {}", rc));
+        return;
+    }
+    kernel::settle();
+    let rc = unsafe { ffi::rodbus_client_channel_enable(ch) };
+    kernel::settle();
+    if rc != 0 {
+        out.violate("C18", "enable", format!("enable returned {}", rc));
+        return;
+    }
+    // open attempts: at 0, then after min, 2*min (capped)
+    let mut expect_opens = vec![0u64];
+    let mut d = retry_ms;
+    let mut t = 0u64;
+    for _ in 0..fails {
+        t += d * MS;
+        expect_opens.push(t);
+        d = (d * 2).min(retry_max);
+    }
+    kernel::advance_to(t);
+    let opens: Vec<u64> = serial::opens(PATH).iter().map(|o| o.at).collect();
+    if opens != expect_opens {
+        out.violate("C18", "retry_strategy_not_forwarded", format!("min={}ms max={}ms, {} failed opens: attempts at {:?}, expected {:?}", retry_ms, retry_max, fails, opens, expect_opens));
+        return;
+    }
+    let mut expected_states: Vec<c_int> = vec![0];
+    for _ in 0..fails {
+        expected_states.push(1);
+    }
+    expected_states.push(2);
+    // two back-to-back requests: the second frame respects the inter-character silence for this baud rate
+    let t35 = super::client::t35_ns(baud);
+    let mut wl = dec_idx as u64 ^ (baud as u64) << 8 ^ (fails as u64) << 40;
+    let n = 2 + choose(4) as usize;
+    let mut last_write: Option<u64> = None;
+    for k in 0..n {
+        let req = gen_valid_req(true);
+        let unit = 1 + choose(10) as u8;
+        hash_bytes(&mut wl, &pdu::encode_req(&req)[..4]);
+        let ctx: Ctx = Arc::new(Mutex::new(CbLog::default()));
+        let rc = ffi_submit(ch, &req, unit, 1000, &ctx);
+        if rc != 0 {
+            out.violate("C18", "submit_rc", format!("rtu request returned {}", rc));
+            return;
+        }
+        kernel::settle();
+        let now = kernel::now_ns();
+        let due = match last_write {
+            Some(l) if l + t35 > now => l + t35,
+            _ => now,
+        };
+        kernel::advance_to(due);
+        let w = serial::writes(PATH);
+        let wt = w.last().map(|x| x.0);
+        if wt != Some(due) {
+            out.violate("C18", "serial_settings_not_forwarded", format!("baud {}: frame {} written at {:?}, expected {} (t3.5 = {} ns after the previous write at {:?})", baud, k, wt, due, t35, last_write));
+            return;
+        }
+        last_write = Some(due);
+        let wire = serial::line_take(PATH);
+        let want = rtu_frame(unit, &pdu::encode_req(&req));
+        if wire != want {
+            out.violate("C18", "wire_differs_from_rust_api", format!("rtu fc={}: wire {} expected {}", req.fc(), hex(&wire), hex(&want)));
+            return;
+        }
+        let r = super::client::correct_reply(&req);
+        serial::line_write(PATH, &rtu_frame(unit, &r));
+        kernel::settle();
+        let l = ctx.lock().unwrap();
+        if l.outcomes.len() != 1 || l.outcomes[0].1 != expected_ok(&req, &r) || l.destroyed != 1 {
+            out.violate("C18", "outcome_differs_from_rust_api", format!("rtu fc={}: outcomes {:?} destroy {}", req.fc(), l.outcomes, l.destroyed));
+            return;
+        }
+        out.ops_checked += 1;
+    }
+    // the port is lost: Wait, then Open again after the configured minimum delay
+    serial::inject_port_lost(PATH, std::io::ErrorKind::BrokenPipe);
+    kernel::settle();
+    let lost_at = kernel::now_ns();
+    kernel::advance(retry_ms * MS);
+    expected_states.extend([1, 2]);
+    let opens: Vec<u64> = serial::opens(PATH).iter().map(|o| o.at).collect();
+    if opens.last() != Some(&(lost_at + retry_ms * MS)) {
+        out.violate("C18", "retry_strategy_not_forwarded", format!("port lost at {}: re-open attempts {:?}, expected one at {}", lost_at, opens, lost_at + retry_ms * MS));
+        return;
+    }
+    let rc = unsafe { ffi::rodbus_client_channel_disable(ch) };
+    kernel::settle();
+    expected_states.push(0);
+    let got: Vec<c_int> = states.lock().unwrap().states.iter().map(|s| s.1).collect();
+    if rc != 0 || got != expected_states {
+        out.violate("C18", "port_state_mapping", format!("disable rc={}; port listener saw {:?}, expected {:?} (0 Disabled, 1 Wait, 2 Open, 3 Shutdown)", rc, got, expected_states));
+        return;
+    }
+    rt.destroy();
+    kernel::settle();
+    unsafe { ffi::rodbus_client_channel_destroy(ch) };
+    kernel::settle();
+    if states.lock().unwrap().destroyed != 1 {
+        out.violate("C18", "listener_destroy_count", format!("port listener on_destroy fired {} times", states.lock().unwrap().destroyed));
+    }
+    out.nontrivial = Some(wl);
+    out.sample = Some(json!({"scenario": "C ABI serial client", "baud": baud, "retry_ms": [retry_ms, retry_max], "failed_opens": fails, "requests": n}));
+}
